@@ -60,6 +60,8 @@ func VH_C03_framing_many() {
 //verif:cfg use=dirmodel b_program=2_commands_from_the_gate_table(43x43) ignorego=1 maxsteps=40000000
 func VH_C03_restart() {
 	s, _ := vhShrinkServer()
+	s.luascripts = s.newScriptMap() // the table contains script commands
+	s.luapool = s.newPool()
 	vhWriteCmd(s, "SET", "fleet", "truck1", "FIELD", "speed", "90", "POINT", "33", "-115")
 	vhWriteCmd(s, "SET", "fleet", "truck2", "STRING", "hello")
 	vhWriteCmd(s, "SET", "fleet", "truck4", "EX", "100", "POINT", "3", "4")
